@@ -354,6 +354,24 @@ Section C01.
       split; [left; assumption|]. eexists; eassumption.
   Qed.
 
+  (* the payload RETURNED is exactly the payload that was VERIFIED, for every payload
+     argument: the signing input handed to alg_verify is built from co_payload o *)
+  Theorem compact97_payload_is_verified tok src payload algs o :
+    deser_compact97 tok src payload algs = Ok o ->
+    exists rg enc,
+      verified rg src (co_protected o) (co_hseg o ++ 46 :: enc) (co_sseg o) /\
+      ( (* b64 = false: the returned octets themselves are what the signature covers *)
+        (enc = co_payload o /\ py_getitem_str (co_protected o) s_b64 <> Ok (PBool true) /\
+         py_in (PStr s_b64) (co_protected o) = Ok true)
+        \/
+        (* otherwise: their BASE64URL text, which is the received payload segment *)
+        (enc = co_pseg o /\ b64d enc = Ok (co_payload o)) ).
+  Proof.
+    intro H. apply compact97_sound in H. destruct H as (_ & _ & _ & [(P & _ & (rg & V))|(HB & NB & _ & V)]).
+    - exists rg, (co_pseg o). split; [exact V|]. right. auto.
+    - exists (reg97 algs), (co_payload o). split; [exact V|]. left. auto.
+  Qed.
+
   (* ---------------- rfc7797 JSON (fixed code) ---------------- *)
   Theorem json97_sound_fixed p sg src algs o :
     deser_json97 true (JFlat p sg) src algs = Ok o ->
